@@ -36,7 +36,7 @@ def Seq.size (s : Seq) : Int :=
   let range := s.last - s.first
   if range.tmod s.step = 0 then range.tdiv s.step else range.tdiv s.step + 1
 
-/-- `seq(int num)`: `[num,num+1)` for `num >= -1`, `[num-1,num)` for `num < -1` -/
+/-- `seq(int num)` and `fix<num>`: `[num,num+1)` for `num >= -1`, `[num-1,num)` for `num < -1` -/
 def Seq.ofInt (num : Int) : Seq :=
   ⟨if num < -1 then num - 1 else num, if num < -1 then num else num + 1, 1⟩
 
